@@ -198,3 +198,34 @@ for n in range(3):
         globals={'ancestor': ANCESTOR},
         note='the derived set is registered as a subtype of this one exactly when extension can only narrow '
              '(intersection / exclusion) and this set is not the empty one'))
+
+
+# ---- the subtype relation on constraint objects, asked from either side (C14) --------------------------------------------------------
+def _rel_obj(name, constrained, contains_flag):
+    import z3 as _z
+
+    def make(ex, env):
+        vm = Obj('set', {}, {'__contains__': lambda ex2, self, x: _z.Bool(contains_flag)}, name=name + '._valueMap')
+        return Obj('AbstractConstraint', {'_values': Obj('tuple', {'__truthy__': _z.Bool(constrained)}, name=name + '._values'),
+                                          '_valueMap': vm, '__truthy__': _z.Bool(constrained)},
+                   {'__eq__': lambda ex2, self, o: _z.Bool('constraints.equal'), 'getValueMap': lambda ex2, self: vm}, name=name)
+    return make
+
+
+import z3 as _z3
+_RG = {'selfConstrained': _z3.Bool('self.constrained'), 'otherConstrained': _z3.Bool('other.constrained'),
+       'equal': _z3.Bool('constraints.equal'), 'selfDerivedFromOther': _z3.Bool('other in self.valueMap'),
+       'otherDerivedFromSelf': _z3.Bool('self in other.valueMap')}
+_RP = dict(self=PDerived(_rel_obj('self', 'self.constrained', 'other in self.valueMap')),
+           otherConstraint=PDerived(_rel_obj('otherConstraint', 'other.constrained', 'self in other.valueMap')))
+CONTRACTS.append(Contract(
+    id='type.constraint::AbstractConstraint.isSuperTypeOf', file=F, qual='AbstractConstraint.isSuperTypeOf', properties=['C14'],
+    params=_RP, globals=_RG,
+    ensures=[('supertype-of-itself-of-everything-if-unconstrained-of-its-derivations',
+              'result == (otherConstraint is self or not selfConstrained or equal or otherDerivedFromSelf)')]))
+CONTRACTS.append(Contract(
+    id='type.constraint::AbstractConstraint.isSubTypeOf', file=F, qual='AbstractConstraint.isSubTypeOf', properties=['C14'],
+    params=_RP, globals=_RG,
+    # the mirror image of isSuperTypeOf: a.isSubTypeOf(b) == b.isSuperTypeOf(a)
+    ensures=[('mirror-of-isSuperTypeOf',
+              'result == (otherConstraint is self or not otherConstrained or equal or selfDerivedFromOther)')]))
